@@ -16,6 +16,7 @@ INST_PY = 'pytype/abstract/_instances.py'
 
 def build():
   T = Theory('C13')
+  T.exact_slices = True
   Var = S.Uninterp('Var')
   Data = S.Uninterp('Data')
   Node = S.Uninterp('CFGNode')
@@ -37,9 +38,29 @@ def build():
       posargs=SeqVar, namedargs=DictSV, starargs=OptVar, starstarargs=OptVar))
   T.bind_obj(FB_PY, 'SignedFunction', collections.OrderedDict(
       signature=('obj', SIG_PY, 'Signature'), ctx=Ctx))
-  T.bind_obj(IF_PY, 'CodeStub', collections.OrderedDict(varnames=SeqStr, argcount=S.INT))
+  T.bind_obj(IF_PY, 'CodeStub', collections.OrderedDict(varnames=SeqStr, argcount=S.INT, has_va=S.BOOL, has_kw=S.BOOL))
   T.bind_obj(IF_PY, 'InterpreterFunction', collections.OrderedDict(
-      signature=('obj', SIG_PY, 'Signature'), ctx=Ctx, code=('obj', IF_PY, 'CodeStub'), nonstararg_count=S.INT))
+      signature=('obj', SIG_PY, 'Signature'), ctx=Ctx, code=('obj', IF_PY, 'CodeStub'), nonstararg_count=S.INT,
+      posonlyarg_count=S.INT, defaults=SeqVar, kw_defaults=DictSV))
+  # code.has_varargs() / has_varkeywords(): flags of the code object
+  T.opaque[(IF_PY, 'InterpreterFunction.has_varargs')] = lambda ex, bound, node: bound['self'].fields['code'].fields['has_va']
+  T.opaque[(IF_PY, 'InterpreterFunction.has_kwargs')] = lambda ex, bound, node: bound['self'].fields['code'].fields['has_kw']
+  from engine import source as _source
+
+  def mk_signature(ex, args, kwargs, node):
+    """function.Signature(name, param_names, posonly_count, varargs_name, kwonly_params, kwargs_name, defaults, annotations):
+    the constructor stores its arguments (A-CTOR; annotation post-processing is not modelled)."""
+    o = Obj('Signature', _source.load(ex.repo, SIG_PY), {})
+    names = ['name', 'param_names', 'posonly_count', 'varargs_name', 'kwonly_params', 'kwargs_name', 'defaults', 'annotations']
+    sorts_ = dict(param_names=SeqStr, posonly_count=S.INT, varargs_name=OptStr, kwonly_params=SeqStr, kwargs_name=OptStr, defaults=DictSV)
+    for nm, a in zip(names, args):
+      if nm in sorts_:
+        from engine.execcomp import Gen
+        if isinstance(a, V) and isinstance(a.sort, S.SetOf):
+          a = ex.iter_to_seq(a, node)
+        o.fields[nm] = ex.coerce(a, sorts_[nm])
+    return o
+  T.classes[(FN_PY, 'Signature')] = ('opaque', mk_signature)
   T.runtime_class = {(SIG_PY, 'Signature'): [(FN_PY, 'Signature')]}   # Signature objects are abstract.function.Signature instances
   T.inline.add((SIG_PY, 'Signature.posonly_params'))
   T.inline.add((FB_PY, 'SignedFunction.get_nondefault_params'))
@@ -202,6 +223,36 @@ def build():
       'all(self.code.varnames[k] in self.signature.kwonly_params for k in range(self.code.argcount, self.nonstararg_count))',
       'all(any(self.code.varnames[k] == y for k in range(self.code.argcount, self.nonstararg_count)) for y in self.signature.kwonly_params)',
   ]
+  me_if = ('obj', IF_PY, 'InterpreterFunction')
+  vn = 'self.code.varnames'
+  T.add(Contract(
+      IF_PY, 'InterpreterFunction._build_signature', collections.OrderedDict(self=me_if, name=S.STR, annotations=S.Uninterp('Annotations')),
+      requires=['0 <= self.code.argcount and self.code.argcount <= self.nonstararg_count',
+                'self.nonstararg_count + (1 if self.code.has_va else 0) + (1 if self.code.has_kw else 0) <= len(%s)' % vn,
+                'len(self.defaults) <= self.code.argcount'],
+      ensures=[
+          # the signature lists the parameters of the def in declaration order ...
+          'len(result.param_names) == self.code.argcount', 'all(result.param_names[k] == %s[k] for k in range(self.code.argcount))' % vn,
+          'result.posonly_count == self.posonlyarg_count',
+          # ... the keyword-only names (as a set) ...
+          'all((y in result.kwonly_params) == any(%s[k] == y for k in range(self.code.argcount, self.nonstararg_count)) for y in every("Str"))' % vn,
+          # ... *args / **kwargs names ...
+          '(result.varargs_name is None) == (not self.code.has_va)', 'implies(self.code.has_va, result.varargs_name == %s[self.nonstararg_count])' % vn,
+          '(result.kwargs_name is None) == (not self.code.has_kw)',
+          'implies(self.code.has_kw, result.kwargs_name == %s[self.nonstararg_count + (1 if self.code.has_va else 0)])' % vn,
+          # ... and the defaults: the LAST len(defaults) positional parameters, plus the keyword-only defaults
+          'all((y in result.defaults) == (y in self.kw_defaults or any(%s[k] == y for k in range(self.code.argcount - len(self.defaults), self.code.argcount)))'
+          ' for y in every("Str"))' % vn,
+      ],
+      asserts={
+          'kwonly = set(': ['all((y in kwonly) == any(%s[k] == y for k in range(self.code.argcount, self.nonstararg_count)) for y in every("Str"))' % vn],
+          'defaults = dict(': ['all((y in defaults) == any(%s[self.code.argcount - len(self.defaults) + p] == y for p in range(len(self.defaults))) for y in every("Str"))' % vn,
+                               'all((y in defaults) == any(%s[k] == y for k in range(self.code.argcount - len(self.defaults), self.code.argcount)) for y in every("Str"))' % vn],
+          'defaults.update(': ['all((y in defaults) == (y in self.kw_defaults or any(%s[k] == y for k in range(self.code.argcount - len(self.defaults), self.code.argcount)))'
+                               ' for y in every("Str"))' % vn],
+      },
+      ghost={'kwonly': SetStr, 'defaults': DictSV},
+      result=('obj', SIG_PY, 'Signature')))
   PairSB = S.Tup(S.STR, S.BOOL)
   T.add(Contract(
       IF_PY, 'InterpreterFunction.get_nondefault_params', collections.OrderedDict(self=('obj', IF_PY, 'InterpreterFunction')),
@@ -304,11 +355,15 @@ def build():
   return T
 
 
-SURROUND = ['InterpreterFunction._build_signature (signature built from the code object)',
+SURROUND = ['function.Signature.__init__ (stores its arguments: A-CTOR; annotation post-processing)',
             'how the VM builds Args and Signature from bytecode; Args.simplify', 'InterpreterFunction.call/_find_matching_sig (overload choice)',
             'PyTDFunction binding (_pytd_function.py)', 'error-to-log mapping (errors.py)', 'function.has_visible_namedarg']
 NATIVE_IN_QUICK = True
 MUTANTS = [
+    dict(name='bs_defaults_from_left', file=IF_PY, old="        zip(self.get_positional_names()[-len(self.defaults) :], self.defaults)\n", new="        zip(self.get_positional_names(), self.defaults)\n"),
+    dict(name='bs_kwarg_index_ignores_varargs', file=IF_PY, old="    if self.has_kwargs():\n      kwarg_name = self.code.varnames[arg_pos]\n", new="    if self.has_kwargs():\n      kwarg_name = self.code.varnames[self.nonstararg_count]\n"),
+    dict(name='bs_kwonly_includes_positional', file=IF_PY, old="    kwonly = set(self.code.varnames[self.code.argcount : self.nonstararg_count])\n", new="    kwonly = set(self.code.varnames[: self.nonstararg_count])\n"),
+
     dict(name='if_nondefault_skips_last', file=IF_PY, old="    for i in range(self.nonstararg_count):\n      yield self.code.varnames[i], i >= self.code.argcount\n", new="    for i in range(self.nonstararg_count - 1):\n      yield self.code.varnames[i], i >= self.code.argcount\n"),
     dict(name='if_kwonly_flag_off_by_one', file=IF_PY, old="      yield self.code.varnames[i], i >= self.code.argcount\n", new="      yield self.code.varnames[i], i > self.code.argcount\n"),
     dict(name='if_argcount_includes_kwonly', file=IF_PY, old="  def argcount(self, _) -> int:\n    return self.code.argcount\n", new="  def argcount(self, _) -> int:\n    return self.nonstararg_count\n"),
